@@ -24,6 +24,41 @@ func init() {
 			[]string{"process-crash model: bytes handed to write(2) survive a crash (no power-loss reordering; goderive never syncs and the property does not mention it)"})
 	}
 	genCases["C07"] = c07Case
+	genDirected["C07"] = c07Directed
+}
+
+// c07Directed replays a committed history: each version is written and run
+// in turn; after the last run the result must equal the from-scratch result.
+func c07Directed(ctx *genCtx, in *DirectedInput, dir string) *genViolation {
+	hist, scr := filepath.Join(dir, "h"), filepath.Join(dir, "s")
+	plan := &Plan{MapMode: "identity"}
+	args := in.Args
+	if len(args) == 0 {
+		args = []string{"./p"}
+	}
+	var r *genRun
+	prior := ""
+	for _, files := range in.Versions {
+		writeWorld(hist, files)
+		prior = derivedFiles(hist)["p/derived.gen.go"]
+		r = runGoderive(ctx.bins.inst, hist, append(append([]string{}, in.Flags...), args...), plan, 0)
+	}
+	last := in.Versions[len(in.Versions)-1]
+	sr, sfiles := scratchRun(ctx, last, scr, in.Flags, args, plan)
+	got := derivedFiles(hist)
+	facts := map[string]string{"stderr": r.Stderr, "sources": joinFiles(userSources(last)), "stale_inner": staleInner(prior, sfiles["p/derived.gen.go"], innerCallNames(userSources(last)))}
+	if r.Exit != sr.Exit {
+		return &genViolation{Clause: "stale-induced-failure", Detail: fmt.Sprintf("run exits %d, from scratch %d", r.Exit, sr.Exit), Facts: facts}
+	}
+	if ok, d := sameDerived(got, sfiles); !ok {
+		clause := "bytes-differ"
+		if errs := typecheck(hist, args...); len(errs) > 0 {
+			clause = "not-typecheck"
+			d += " | " + strings.Join(errs, " | ")
+		}
+		return &genViolation{Clause: clause, Detail: d, Facts: facts}
+	}
+	return nil
 }
 
 // scratchRun: same binary, same plan, fresh copy of the sources without any derived.gen.go.
